@@ -1895,6 +1895,7 @@ def _replay_fft_corr(case, clause, model, seed):
             tried += 1
             inputs = {"timesteps": ts, "dt": dt, "boxlengths": [b.tolist() for b in boxes], "positions": [p.tolist() for p in positions],
                       "vectors": keep_v.tolist(), "qvector": keep_q.tolist()}
+            before = set(os.listdir(tmp))
             try:
                 got = V.vector_fft_corr(S, qvector, vectors, dt=dt, outputfile=of) if not default_name else V.vector_fft_corr(S, qvector, vectors, dt=dt)
             except Exception as ex:
@@ -1940,6 +1941,10 @@ def _replay_fft_corr(case, clause, model, seed):
                         bad = f"spectra file: columns {list(back.columns)}, shape {back.values.shape}, expected {AVE_COLS} x {ref['spectra'].shape[0]} rows"
                     elif np.abs(back.values - ref["spectra"]).max() > 1e-7:
                         bad = f"spectra file {back.values.tolist()} is not the frame average of the per-frame averaged tables {ref['spectra'].tolist()}"
+            if bad is None:
+                extra = sorted(set(os.listdir(tmp)) - before - {of + ".spectra.csv"} - {of + "." + H + ".npy" for H in HEADERS})
+                if extra:
+                    bad = f"unexpected files written: {extra} (documented: the spectra csv and one npy file per mode)"
             if bad is None and not (np.array_equal(keep_v, vectors) and np.array_equal(keep_q, qvector)
                                     and all(np.array_equal(positions[t], snaps[t].positions) for t in range(Tn))):
                 bad = "an input array was modified"
